@@ -125,6 +125,14 @@ func (g *gen) genParts(root *gorm.DB) []part {
 			l := g.newLeaf(col, "")
 			w := clause.Where{Exprs: []clause.Expression{clause.Eq{Column: col, Value: l.val}}}
 			parts = append(parts, part{kind: "where", desc: "Clauses(clause.Where{Eq " + col + "})", leaves: []*leaf{l}, apply: func(db *gorm.DB) *gorm.DB { return db.Clauses(w) }})
+		case k == 12 && g.r.Bool():
+			ret := clause.Returning{}
+			d := "Clauses(Returning{})"
+			if g.r.Bool() {
+				ret = clause.Returning{Columns: []clause.Column{{Name: "id"}, {Name: "c1"}}}
+				d = "Clauses(Returning{id,c1})"
+			}
+			parts = append(parts, part{kind: "misc", desc: d, apply: func(db *gorm.DB) *gorm.DB { return db.Clauses(ret) }})
 		case k == 12:
 			parts = append(parts, part{kind: "misc", desc: "Clauses(Locking).Limit(5).Offset(2)", apply: func(db *gorm.DB) *gorm.DB {
 				return db.Clauses(clause.Locking{Strength: "UPDATE"}).Limit(5).Offset(2)
@@ -205,7 +213,11 @@ type outcome struct {
 
 // runChain builds the chain on db and executes the finisher; returns the statement.
 func (g *gen) runChain(db *gorm.DB, parts []part, fin string) (out outcome, desc string, requireKinds map[string]bool, finLeaves []*leaf) {
-	root := db
+	return g.runChainOn(db, db, parts, fin)
+}
+
+// runChainOn applies parts to db; sub-builders and sub-queries are built from root.
+func (g *gen) runChainOn(root, db *gorm.DB, parts []part, fin string) (out outcome, desc string, requireKinds map[string]bool, finLeaves []*leaf) {
 	var d []string
 	writes := strings.HasPrefix(fin, "Create") || strings.HasPrefix(fin, "Upsert") || strings.HasPrefix(fin, "Update") || strings.HasPrefix(fin, "Delete") || fin == "Save"
 	for _, p := range parts {
